@@ -65,7 +65,7 @@ void vf_harness(void) {
 }
 ''',
     entry=None, unwind=7, floor=10, expect=['assertion'], kind='bounded', timeout=600,
-    planted=[('solve', r'M A2 = CLONE\(A\);', 'M A2 = A;', r'^([2-5])x\1_rhs1$')],   # only square systems (2x2 up: a 1x1 system eliminates nothing) with one right-hand side take that path without another copy
+    planted=[('solve', r'M A2 = CLONE\(A\);', 'M A2 = A;', r'^([2-5])x\1_rhs1$'), ('solve_', r'COPY\(A, A_\);', 'A = A_;', r'^[2-5]x\d_rhs3$')],   # only square systems (2x2 up: a 1x1 system eliminates nothing) with one right-hand side take that path without another copy
     replay=lambda r, o, work: {'concretisation': 'shape of the failing variant; element values fixed (values are not part of the counterexample: the unit tracks blocks)',
                                'native': replay.run_native('C20/driver.cpp', ['solve'] + __import__('re').findall(r'\d+', r.variant), work)},
     variants=dict(('%dx%d_rhs%d' % (r, c, k), ['-DRA=%d' % r, '-DCA=%d' % c, '-DCB=%d' % k]) for (r, c) in ((1, 1), (2, 2), (3, 3), (4, 4), (5, 5), (2, 1), (3, 2), (4, 2), (5, 3)) for k in (1, 2, 3) if k < 3 or (r, c) in ((2, 2), (3, 3), (4, 4), (3, 2))),
